@@ -13,7 +13,8 @@ from .. import tables, rx
 from ..tables import Atom
 from ..paths import enumerate_paths
 from ..consteval import fold_const, Regex
-from .c03_flow import OFlow, SanCall, strip_proj
+from .c03_flow import OFlow, SanCall, strip_proj, via_of
+from .c03_inline import inline_helpers, inline_test_locals, comprehension_as_loop
 
 NINJA = 'mesonbuild/backend/ninjabackend.py'
 BACKENDS = 'mesonbuild/backend/backends.py'
@@ -46,6 +47,16 @@ BUILD_SOURCES = ['infilenames', 'outfilenames', 'implicit_outfilenames', 'deps',
 
 # ---------------------------------------------------------------------------
 # shared helpers
+
+NO_INLINE = {'ninja_quote', '_quoter', 'cmd_quote', 'gcc_rsp_quote', 'quote_func', 'quote_arg', 'strToCommandArg', 'rule_iter'}
+
+
+def _nfunc(mod: Module, qn: str) -> ast.AST:
+    """The function with calls to private helpers of its class/module expanded in place and boolean single-definition
+    locals substituted into the tests that read them (both are syntactic normalisations of a copy)."""
+    cls = qn.split('.')[0] if '.' in qn and mod.has_cls(qn.split('.')[0]) else None
+    return inline_test_locals(inline_helpers(mod, mod.func(qn), cls, NO_INLINE))
+
 
 def _assign_eff(st: ast.AST) -> T.Optional[str]:
     if isinstance(st, ast.Assign) and len(st.targets) == 1:
@@ -209,12 +220,15 @@ def _resolve_truth(atom: Atom, val: bool, fl: OFlow) -> T.Tuple[Atom, bool]:
 def r1a(ctx: RuleCtx) -> None:
     mod = ctx.repo.module(NINJA)
     qn = 'NinjaBuildElement.write'
-    fn = mod.func(qn)
-    fl = OFlow(fn, cut={'ninja_quote'})
+    fn = _nfunc(mod, qn)
+    fl = OFlow(fn, cut={'ninja_quote'}, opaque=True)
     sinks = _sinks(fn, fl)
     ctx.floor(f'{qn}: outfile.write sinks', len(sinks), 3)
+    opaque_flows: T.List[str] = []
     for c in sinks:
-        raw = sorted(o for o in fl.origins(c.args[0]) if _is_source(o))
+        oo = fl.origins(c.args[0])
+        raw = sorted(o for o in oo if _is_source(o))
+        opaque_flows += [f'{v[1]} through {v[0]}(...)' for v in map(via_of, oo) if v is not None and _is_source(v[1])]
         ctx.require(not raw, f'{qn}: `{short(c, 60)}` receives build-statement data only through ninja_quote', mod, qn,
                     f'{norm(c)} <- {", ".join(raw)}',
                     f'{", ".join(raw)} reaches {short(c, 60)} without passing ninja_quote: a space, `$` or `:` in that value corrupts the statement', c)
@@ -299,6 +313,8 @@ def r1a(ctx: RuleCtx) -> None:
                     continue
                 ctx.violation(mod, q, c, f'add_item is called with a computed variable name {short(a)}: names are written unquoted by {qn}', c)
     ctx.floor('add_item call sites with a literal identifier as variable name', n, 60)
+    if opaque_flows:
+        raise Undecided(f'{qn}: {sorted(set(opaque_flows))} reach outfile.write through a callee the analysis cannot see into')
     ctx.ok(f'{n} add_item sites pass a literal identifier as the (unquoted) variable name')
 
 
@@ -328,7 +344,7 @@ def r1b(ctx: RuleCtx) -> None:
     members = _quoting_members(ctx, mod)
     # _quoter decision table
     qn = 'NinjaRule._quoter'
-    fn = mod.func(qn)
+    fn = _nfunc(mod, qn)
     ps = [a.arg for a in fn.args.args]
     if len(ps) != 2 or len(fn.args.defaults) != 1:
         raise Undecided(f'{qn}: expected (arg, quote function = default)')
@@ -355,11 +371,11 @@ def r1b(ctx: RuleCtx) -> None:
     # flows
     cut = {'ninja_quote', '_quoter'}
     qn = 'NinjaRule.write'
-    fn = mod.func(qn)
+    fn = _nfunc(mod, qn)
     fl = OFlow(fn, cut)
     sinks = _sinks(fn, fl)
     ctx.floor(f'{qn}: outfile.write sinks', len(sinks), 10)
-    init = mod.func('NinjaRule.__init__')
+    init = _nfunc(mod, 'NinjaRule.__init__')
     fi = OFlow(init, cut)
     srcs = {'attr:self.command', 'attr:self.args'}
     cs_defs = fi.attr_defs.get('self.command_str', [])
@@ -494,7 +510,7 @@ def _class_of(r: Regex) -> T.Set[str]:
 def r2(ctx: RuleCtx) -> None:
     mod = ctx.repo.module(NINJA)
     qn = 'ninja_quote'
-    fn = mod.func(qn)
+    fn = inline_test_locals(mod.func(qn))
     pname, _ = _build_flag_param(mod)
     tab = tables.extract(fn, effects=_assign_eff, name=qn)
     char_atoms: T.Dict[Atom, str] = {}
@@ -630,7 +646,7 @@ def _style_atom(a: Atom, subjects: T.Set[str]) -> T.Optional[T.Callable[[str], b
 
 def _qf_map(ctx: RuleCtx, mod: Module, qn: str, var: str, subjects: T.Set[str], members: T.List[str],
             rsp_flag_ok: T.Callable[[Atom], bool]) -> T.Dict[T.Tuple[bool, str], str]:
-    fn = mod.func(qn)
+    fn = _nfunc(mod, qn)
     body = [st for st in fn.body if any(isinstance(n, ast.Name) and n.id == var and isinstance(n.ctx, ast.Store) for n in ast.walk(st))]
     if not body:
         raise Undecided(f'{qn}: no assignment to {var}')
@@ -664,7 +680,7 @@ def r3a(ctx: RuleCtx) -> None:
     mod = ctx.repo.module(NINJA)
     members = _style_members(ctx, mod)
     # rule side: variable passed as quote function to _quoter for rspfile_content
-    wfn = mod.func('NinjaRule.write')
+    wfn = _nfunc(mod, 'NinjaRule.write')
     fl = OFlow(wfn, {'ninja_quote', '_quoter'})
     for c in _sinks(wfn, fl):
         fl.origins(c.args[0])
@@ -674,7 +690,7 @@ def r3a(ctx: RuleCtx) -> None:
     rvar = next(iter(two))
     rule_map = _qf_map(ctx, mod, 'NinjaRule.write', rvar, {'self.rspfile_quote_style'}, members, lambda a: False)
     # element side
-    efn = mod.func('NinjaBuildElement.write')
+    efn = _nfunc(mod, 'NinjaBuildElement.write')
     efl = OFlow(efn, {'ninja_quote'})
     evars = set()
     for n in ast.walk(efn):
@@ -719,7 +735,7 @@ def r3b(ctx: RuleCtx) -> None:
     ctx.require(isinstance(raw, (set, frozenset)) and all(isinstance(x, str) for x in raw) and n_assign == 1,
                 f'raw_names is one module-level set of {len(raw)} names', mod, '<module>', 'raw_names', f'raw_names is assigned {n_assign} times / folds to {raw!r}')
     qn = 'NinjaRule.__init__.strToCommandArg'
-    fn = mod.func(qn)
+    fn = inline_test_locals(mod.func(qn))
     fl = OFlow(fn)
     tab = tables.extract(fn, name=qn)
     sem: T.Dict[Atom, str] = {}
@@ -739,7 +755,7 @@ def r3b(ctx: RuleCtx) -> None:
     if set(sem.values()) != {'I', 'A', 'D', 'R'}:
         raise Undecided(f'{qn}: conditions found {sorted(sem.values())}, expected isinstance/&&/$/raw_names')
     ctx.require('raw_names' not in fl.defs and 'raw_names' not in fl.params, f'{qn} consults the module-level raw_names', mod, qn, 'raw_names', 'raw_names is shadowed locally')
-    efn = mod.func('NinjaBuildElement.write')
+    efn = _nfunc(mod, 'NinjaBuildElement.write')
     efl = OFlow(efn)
     etabs = set()
     for n in ast.walk(efn):
@@ -1219,6 +1235,7 @@ def r5b(ctx: RuleCtx) -> None:
     mod = ctx.repo.module(BACKENDS)
     qn = 'Backend.escape_extra_args'
     fn = mod.func(qn)
+    fn = comprehension_as_loop(fn) or fn      # `return [ELT for arg in args]` is read as the loop it abbreviates
     loops = [st for st in fn.body if isinstance(st, ast.For) and isinstance(st.target, ast.Name)]
     rets = [st for st in fn.body if isinstance(st, ast.Return)]
     if len(loops) != 1 or len(rets) != 1 or not isinstance(rets[0].value, ast.Name):
@@ -1252,10 +1269,17 @@ def r5b(ctx: RuleCtx) -> None:
             continue      # two different prefixes at once: no such argument
         if len(rows) != 1:
             raise Undecided(f'{qn}: {len(rows)} rows for prefix tests {bits}')
-        want = ([f"{it} := {it}.replace('\\\\', '\\\\\\\\')"] if g else []) + [f'call {out}.append({it})']
-        got = list(rows[0].effects)
-        ctx.require(got == want, f'{qn}: prefix test {"true" if g else "false"}: {got}', mod, qn, f'define={g}: {got}',
-                    f'for an argument that {"starts" if g else "does not start"} with one of {sorted(allp)} the function does {got}; the established behaviour is {want}',
+        dbl = f"{it}.replace('\\\\', '\\\\\\\\')"
+        want = dbl if g else it
+        effs = list(rows[0].effects)
+        # appended expression over the loop element: `x = R; out.append(x)` and `out.append(R)` are the same shape
+        got = '; '.join(effs)
+        if len(effs) == 1 and effs[0].startswith(f'call {out}.append(') and effs[0].endswith(')'):
+            got = effs[0][len(f'call {out}.append('):-1]
+        elif len(effs) == 2 and effs[0].startswith(f'{it} := ') and effs[1] == f'call {out}.append({it})':
+            got = effs[0][len(f'{it} := '):]
+        ctx.require(got == want, f'{qn}: prefix test {"true" if g else "false"}: appends {got}', mod, qn, f'define={g}: {got}',
+                    f'for an argument that {"starts" if g else "does not start"} with one of {sorted(allp)} the function appends `{got}`; the established behaviour is `{want}`',
                     rows[0].path.events[-1].node)
     # call sites: only the per-target extra args
     n = 0
@@ -1435,14 +1459,43 @@ def r6(ctx: RuleCtx) -> None:
     call = fl.defs[es][0]
     cmdname = norm(call.args[0]) if call.args else ''   # type: ignore[attr-defined]
     ps = [a.arg for a in fn.args.args if a.arg != 'self']
-    app = cfg.nodes_with_call(lambda c: isinstance(c.func, ast.Attribute) and norm(c.func.value) == cmdname and c.func.attr == 'append' and len(c.args) == 1 and norm(c.args[0]) == ps[0])
-    ext = cfg.nodes_with_call(lambda c: isinstance(c.func, ast.Attribute) and norm(c.func.value) == cmdname and c.func.attr == 'extend' and len(c.args) == 1 and norm(c.args[0]) == ps[1])
-    others = cfg.nodes_with_call(lambda c: isinstance(c.func, ast.Attribute) and norm(c.func.value) == cmdname and c.func.attr in ('append', 'extend', 'insert', 'sort', 'reverse', 'pop', 'remove'))
+    muts = cfg.nodes_with_call(lambda c: isinstance(c.func, ast.Attribute) and norm(c.func.value) == cmdname and c.func.attr in ('append', 'extend', 'insert', 'sort', 'reverse', 'pop', 'remove'))
     esn = cfg.node_containing(call)
-    ok = len(app) == 1 and len(ext) == 1 and len(others) == 2 and bool(esn) and cfg.must_pass(cfg.entry, ext[0], app) and cfg.must_pass(cfg.entry, esn[0], ext) \
-        and not cfg.can_reach(ext[0], app[0])
-    ctx.require(ok, f'{qn}: serialised command = [{ps[0]}] + list({ps[1]}), in this order', mod, qn, f'{cmdname}: {[norm(n.ast) for n in others]}',
-                f'the command given to get_executable_serialisation is built by {[short(n.ast) for n in others]}; expected {cmdname}.append({ps[0]}) then {cmdname}.extend({ps[1]})')
+    if not esn or not cmdname.isidentifier():
+        raise Undecided(f'{qn}: command expression {cmdname} given to get_executable_serialisation')
+    # ordered parts of the list: the display it starts from, then append/extend in CFG order
+    parts: T.Optional[T.List[str]] = []
+    defs = [d for d in fl.defs.get(cmdname, []) if not any(d is a for m in muts for c in ast.walk(m.ast) if isinstance(c, ast.Call) for a in c.args)]
+    if len(defs) != 1:
+        parts = None
+    else:
+        def flat(e: ast.AST) -> T.Optional[T.List[str]]:
+            if isinstance(e, ast.List):
+                return [('*' + norm(x.value)) if isinstance(x, ast.Starred) else norm(x) for x in e.elts]
+            if isinstance(e, ast.BinOp) and isinstance(e.op, ast.Add):
+                l, r = flat(e.left), flat(e.right)
+                return None if l is None or r is None else l + r
+            if isinstance(e, ast.Call) and call_name(e) == 'list' and len(e.args) == 1:
+                return ['*' + norm(e.args[0])]
+            if isinstance(e, ast.Name):
+                return ['*' + e.id]
+            return None
+        parts = flat(defs[0])
+    if parts is not None:
+        order = sorted(muts, key=lambda n: n.id)
+        for k_, m in enumerate(order):
+            c = [c for c in ast.walk(m.ast) if isinstance(c, ast.Call) and isinstance(c.func, ast.Attribute) and norm(c.func.value) == cmdname][0]
+            linear = all(cfg.must_pass(cfg.entry, order[k_ + 1], [m]) for _ in [0] if k_ + 1 < len(order)) and cfg.must_pass(cfg.entry, esn[0], [m]) \
+                and not cfg.can_reach(m, m)
+            if not linear or len(c.args) != 1 or c.func.attr not in ('append', 'extend'):
+                parts = None
+                break
+            parts.append(norm(c.args[0]) if c.func.attr == 'append' else '*' + norm(c.args[0]))
+    if parts is None:
+        raise Undecided(f'{qn}: cannot linearise how `{cmdname}` is built ({[short(n.ast) for n in muts]})')
+    want = [ps[0], '*' + ps[1]]
+    ctx.require(parts == want, f'{qn}: serialised command = [{ps[0]}, *{ps[1]}] ({parts})', mod, qn, f'{cmdname} = {parts}',
+                f'the command given to get_executable_serialisation is {parts}; expected the program followed by its arguments {want}')
     _env_note(ctx, R)
 
 
